@@ -51,3 +51,34 @@ for pid in ids:
         raise SystemExit("property %s neither claimed nor in [not_applicable]" % pid)
 json.dump(m, open(os.path.join(V, "MANIFEST.json"), "w"), indent=1)
 print("MANIFEST.json:", len(checks), "checks,", len(m["not_applicable"]), "not applicable")
+
+# ---- COVERAGE.md: property -> obligations (engine, claim), generated
+lines = ["# Coverage by property (generated from obligations.toml by lib/gen_manifest.py)", "",
+         "Engine K = Kani/CBMC harness over the compiled crate; engine M = event automaton over the function's MIR, decided by z3 + cvc5;",
+         "engine X = bounded symbolic execution of the function's MIR with data, decided by cvc5 (integer encoding) + cross-check.",
+         "`Ox.y~regex` = only the queries / harness instances of that obligation whose name matches.", ""]
+XS = {"O19.2", "O15.4", "O17.3", "O1.4", "O15.3", "O4.1", "O4.5"}
+for pid in sorted(cfg["property"]):
+    p = cfg["property"][pid]
+    lines.append("## %s" % pid)
+    lines.append("")
+    if p.get("level_text"):
+        lines.append("*%s*" % p["level_text"])
+        lines.append("")
+    lines.append("| obligation | engine | decides |")
+    lines.append("|---|---|---|")
+    for e in p["obligations"]:
+        o, _, m = e.partition("~")
+        ob = cfg["ob"][o]
+        eng = "X" if o in XS else ("M" if ob.get("engine") == "mir" else "K")
+        claim = ob.get("claim", "").replace("|", "\\|")
+        lines.append("| %s%s | %s | %s |" % (o, (" ~ `%s`" % m.replace("|", "\\|")) if m else "", eng, claim))
+    lines.append("")
+    lines.append("Outside the claim: %s" % p.get("outside", "see DESIGN.md"))
+    lines.append("")
+lines.append("## Not applicable")
+lines.append("")
+for k, v in cfg.get("not_applicable", {}).items():
+    lines.append("* **%s**: %s" % (k, v))
+open(os.path.join(V, "COVERAGE.md"), "w").write("\n".join(lines) + "\n")
+print("COVERAGE.md written")
